@@ -612,9 +612,11 @@ def invariant_preservation(w, S, R, thorough=False):
                 if any(d is None for d in doms):
                     skipped[variant] = "parameter type %s" % [t["s"] for t in ins]
                     break
-                margins = [(0, rows - 1)] + [m for m in ((1, rows - 1), (0, rows - 2), (1, rows - 2)) if m[0] < m[1]]
+                # a component the handler cannot read (may-read summary, transitive) needs no variation
+                reads = {p_[1] for p_ in w.E.summaries[h].R if p_[0] == "arg1" and len(p_) >= 2}
+                margins = [(0, rows - 1)] + ([m for m in ((1, rows - 1), (0, rows - 2), (1, rows - 2)) if m[0] < m[1]] if reads & {R["top_margin"], R["bottom_margin"]} else [])
                 for (tm, bm) in margins:
-                    for om in (False, True):
+                    for om in ((False, True) if R["origin_mode"] in reads else (False,)):
                         for row in sorted({0, tm, bm, rows - 1}):
                             for col in (0, cols - 1, cols):
                                 for args in itertools.product(*doms):
